@@ -32,6 +32,7 @@ fn main() {
         "ctxpt" => ctx::run_ptrace(&a),
         "c15" => c15::run(&a),
         "tl" => tl::run(&a),
+        "reuse" => tl::run_reuse(&a),
         x => { eprintln!("unknown subcommand {x}"); std::process::exit(2); }
     }
 }
